@@ -65,17 +65,17 @@ def _one_parse(e, s):
 
     def on(sig, frm):
         raise _T()
-    old = signal.signal(signal.SIGALRM, on)
+    old = signal.signal(signal.SIGPROF, on)
     try:
         try:
-            signal.setitimer(signal.ITIMER_REAL, 0.4)
+            signal.setitimer(signal.ITIMER_PROF, 0.4)
             return e.parse_string(s)
         finally:
-            signal.setitimer(signal.ITIMER_REAL, 0)
+            signal.setitimer(signal.ITIMER_PROF, 0)
     except _T:
         return "timeout"
     finally:
-        signal.signal(signal.SIGALRM, old)
+        signal.signal(signal.SIGPROF, old)
 
 
 def structure(e):
@@ -126,17 +126,17 @@ def guarded(f, t=3.0):
 
     def on(sig, frm):
         raise _T()
-    old = signal.signal(signal.SIGALRM, on)
+    old = signal.signal(signal.SIGPROF, on)
     try:
         try:
-            signal.setitimer(signal.ITIMER_REAL, t)
+            signal.setitimer(signal.ITIMER_PROF, t)
             return f()
         finally:
-            signal.setitimer(signal.ITIMER_REAL, 0)
+            signal.setitimer(signal.ITIMER_PROF, 0)
     except _T:
         return "timeout"
     finally:
-        signal.signal(signal.SIGALRM, old)
+        signal.signal(signal.SIGPROF, old)
 
 
 def program(ctx, rng, steps):
